@@ -70,6 +70,8 @@ def run(c):
     corp = G.corpus()
     for name, t in corp:
         texts.append(("corpus", t))
+    for t in G.comment_positions():
+        texts.append(("comment-positions", t))
     scale = 8 if c.thorough else 1
     g = G.Gen(rng)
     gw = G.Gen(rng, wide=True)
@@ -147,7 +149,9 @@ def run(c):
         c.count("cert:" + k, v)
     c.extra["rule"] = ("one case = (options ∈ {default, canonical}, input text); the text is parsed by tlast.ParseTL2File, printed by "
                        "TL2File.String()/Print(canonical), parsed again (declarations compared by canonical dump) and printed again "
-                       "(compared byte for byte); texts: all TL2 texts of the repository, files from the type-directed generator with random "
+                       "(compared byte for byte); texts: all TL2 texts of the repository, a directed family with a // comment in every "
+                       "comment position (above a declaration, above every variant incl. the only one, above/right of fields, trailing), "
+                       "files from the type-directed generator with random "
                        "layout and comments (narrow, wide, comment-free), families straddling the 120/80 line-breaking thresholds, single-edit "
                        "mutations, grammar-shaped soups, then every formatted output again as input; distinct = distinct (options, text); "
                        "non-trivial = the text parses; histogram gen:<generator>:<holds|known:dep|rejected|fails>")
